@@ -11,11 +11,12 @@
     the defect switch; for the shape every base tree that satisfies the trickle
     predicate (so also results of earlier appends). *)
 From Coq Require Import List ZArith Bool.
-From V Require Import lib.Verdict lib.Tree model.M_C07 proofs.P_C07 model.M_C08 proofs.P_C08.
+From V Require Import lib.Verdict lib.GoInt lib.Tree model.M_C07 proofs.P_C07 model.M_C08 proofs.P_C08
+  gen.Gen_C08 proofs.P_C08_tv.
 Import ListNotations.
 Open Scope Z_scope.
 
-(** Content and sizes (for the code as it is AND for the corrected variant):
+(** Content and sizes (for the code before AND after fixes/C08-1.patch):
     the data leaves of the result are the old ones followed by the new chunks;
     if the base has consistent recorded sizes so has the result, and its root
     records old size + appended length. *)
@@ -36,9 +37,11 @@ Theorem C08_content : forall A (w : nat), (1 <= w)%nat ->
 Proof. exact @append_content. Qed.
 Print Assumptions C08_content.
 
-(** Shape, with the defect switch off (the continuation loop resumes at the layer
-    and position given by the node's child count): a trickle-shaped base stays
-    trickle-shaped — the predicate of VerifyTrickleDagStructure for the same width. *)
+(** Shape, with the defect switch off (= the code with fixes/C08-1.patch: the
+    continuation loop resumes at the layer given by the node's child count): a
+    trickle-shaped base stays trickle-shaped — the predicate of
+    VerifyTrickleDagStructure for the same width.  Bases are ANY trickle-shaped
+    tree, so this covers every history of appends. *)
 Theorem C08_shape : forall D (dlen : D -> Z) (dnil : D) (w : nat),
   (1 <= w)%nat -> dlen dnil = 0 -> forall raw (t : tree D) cs t',
   tri_shape dlen w raw t = true ->
@@ -47,7 +50,7 @@ Theorem C08_shape : forall D (dlen : D -> Z) (dnil : D) (w : nat),
 Proof. exact @append_shape. Qed.
 Print Assumptions C08_shape.
 
-(** The code as it is (`depth++` after appendFillLastChild) does NOT keep the shape:
+(** The code before the patch (`depth++` after appendFillLastChild) does NOT keep the shape:
     width 2, a base of one chunk built by trickle.Layout, four chunks appended —
     content and sizes are right, the verifier's predicate fails (finding C08-1,
     replayed on the real code by the harness corpus). *)
@@ -61,6 +64,25 @@ Theorem C08_shape_refuted :
     end.
 Proof. exact shape_refuted. Qed.
 Print Assumptions C08_shape_refuted.
+
+(** The model's Append is total on trickle-shaped bases (its fuel — the height of
+    the base — always suffices and every last link it descends into can be reopened),
+    for both behaviours of the switch. *)
+Theorem C08_total : forall D (dlen : D -> Z) (dnil : D) (w : nat),
+  (1 <= w)%nat -> forall raw fl (t : tree D) cs,
+  tri_shape dlen w raw t = true ->
+  exists t', append dlen dnil w (tri_kind raw) fl t cs = Some t'.
+Proof. exact @append_total. Qed.
+Print Assumptions C08_total.
+
+(** [depth_info] of the model IS trickleDepthInfo of the current Go source
+    (re-translated by tools/go2coq on every run into gen/Gen_C08.v, Go's int
+    arithmetic with wrap-around), for every child count and width an int holds. *)
+Theorem C08_depth_info_translated : forall D (w : nat) (s : @nst D),
+  in_range I64 (num_children s) -> in_range I64 (Z.of_nat w) ->
+  trickleDepthInfo (num_children s) (Z.of_nat w) = depth_info w s.
+Proof. exact @depth_info_translated. Qed.
+Print Assumptions C08_depth_info_translated.
 
 (** Non-vacuity: appends that descend into the last sub-tree (base of 23 chunks at
     width 2 has height 3), for both behaviours. *)
